@@ -110,12 +110,24 @@ func (c *Ctx) PreCheckRules(prop string) {
 		name string
 		test func(f *ssa.Function) bool
 	}
+	// a helper has a role if it, or a package helper it hands the work to (depth <= 2), invokes the service
+	reachInvokes := func(f *ssa.Function, pkg, iface string, methods ...string) bool {
+		for _, g := range c.StaticReach(f, 2) {
+			if g != f && prog.PkgPathOf(g) != prog.PkgPathOf(f) {
+				continue
+			}
+			if len(invokesIface(g, pkg, iface, methods...)) > 0 {
+				return true
+			}
+		}
+		return false
+	}
 	roles := []role{
 		{"account lookup", func(f *ssa.Function) bool {
-			return len(invokesIface(f, pkgFetcher, "Service", "FetchAccount", "FetchAccountByKey")) > 0
+			return reachInvokes(f, pkgFetcher, "Service", "FetchAccount", "FetchAccountByKey")
 		}},
-		{"permission check", func(f *ssa.Function) bool { return len(invokesIface(f, pkgChecker, "Service", "Check")) > 0 }},
-		{"account unlock", func(f *ssa.Function) bool { return len(invokesIface(f, pkgUnlocker, "Service", "UnlockAccount")) > 0 }},
+		{"permission check", func(f *ssa.Function) bool { return reachInvokes(f, pkgChecker, "Service", "Check") }},
+		{"account unlock", func(f *ssa.Function) bool { return reachInvokes(f, pkgUnlocker, "Service", "UnlockAccount") }},
 	}
 	rets := succeededReturns(PC, succ)
 	c.R.Floor(rule, "success returns of the pre-check", len(rets), 1)
@@ -153,20 +165,30 @@ func (c *Ctx) PreCheckRules(prop string) {
 	}
 	// lookup helper: Succeeded only below err == nil of the fetch
 	if f := helper["account lookup"]; f != nil {
-		errs := map[ssa.Value]bool{}
-		for _, ci := range invokesIface(f, pkgFetcher, "Service", "FetchAccount", "FetchAccountByKey") {
-			for _, e := range errValuesOfCall(ci) {
-				errs[e] = true
-			}
-		}
 		bad := false
-		for _, ret := range succeededReturns(f, succ) {
+		origins, unknown := c.succeededOrigins(f, succ, 0)
+		for _, u := range unknown {
+			bad = true
+			c.R.Unknown(rule, Fn(f), c.Pos(u), "the account lookup returns a result whose origin is not understood")
+		}
+		for _, ret := range origins {
+			g := ret.Parent()
+			errs := map[ssa.Value]bool{}
+			for _, ci := range invokesIface(g, pkgFetcher, "Service", "FetchAccount", "FetchAccountByKey") {
+				for _, e := range errValuesOfCall(ci) {
+					errs[e] = true
+				}
+			}
 			target := ssa.Instruction(ret)
-			if x, path := an.Cut(an.CutQuery{From: an.Entry(f), Target: func(i ssa.Instruction) bool { return i == target },
+			if x, path := an.Cut(an.CutQuery{From: an.Entry(g), Target: func(i ssa.Instruction) bool { return i == target },
 				AcceptEdge: func(b *ssa.BasicBlock, i int, a *an.Atom) bool { return errNilAtomPhi(a, errs) }}); x != nil {
 				bad = true
-				c.R.Fail(rule, Fn(f), c.Pos(ret), "the account lookup reports success although the fetcher returned an error", "success only below [fetch err == nil]", an.PathString(c.Pos, path))
+				c.R.Fail(rule, Fn(g), c.Pos(ret), "the account lookup reports success although the fetcher returned an error", "success only below [fetch err == nil]", an.PathString(c.Pos, path))
 			}
+		}
+		if len(origins) == 0 {
+			bad = true
+			c.R.Unknown(rule, Fn(f), c.P.FuncPos(f), "the account lookup never reports success")
 		}
 		if !bad {
 			c.R.OK(rule, Fn(f), c.P.FuncPos(f), "lookup success only below [fetch err == nil]")
@@ -189,29 +211,53 @@ func (c *Ctx) PreCheckRules(prop string) {
 			}
 		}
 		bad := false
-		rets := succeededReturns(f, succ)
+		rets, unknownU := c.succeededOrigins(f, succ, 0)
+		for _, u := range unknownU {
+			bad = true
+			c.R.Unknown(rule, Fn(f), c.Pos(u), "the unlock step returns a result whose origin is not understood")
+		}
+		// IsUnlocked / UnlockAccount results in the helpers the unlock step hands over to
 		for _, ret := range rets {
-			target := ssa.Instruction(ret)
-			if x, path := an.Cut(an.CutQuery{From: an.Entry(f), Target: func(i ssa.Instruction) bool { return i == target },
-				AcceptEdge: func(b *ssa.BasicBlock, i int, a *an.Atom) bool {
-					if a == nil {
+			if g := ret.Parent(); g != f {
+				for _, ci := range Calls(g, func(ci ssa.CallInstruction) bool {
+					cc := ci.Common()
+					if !cc.IsInvoke() {
 						return false
 					}
-					if a.Op == "true" && boolOK[a.LV] {
-						return true
-					}
-					// not lockable: comma-ok of the assertion to AccountLocker is false
-					if a.Op == "false" {
-						if ex, ok := a.LV.(*ssa.Extract); ok && ex.Index == 1 {
-							if ta, ok := ex.Tuple.(*ssa.TypeAssert); ok && namedIs(ta.AssertedType, pkgWTypes, "AccountLocker") {
-								return true
-							}
+					return (namedIs(cc.Value.Type(), pkgUnlocker, "Service") && cc.Method.Name() == "UnlockAccount") || (namedIs(cc.Value.Type(), pkgWTypes, "AccountLocker") && cc.Method.Name() == "IsUnlocked")
+				}) {
+					for _, r := range *ci.Value().Referrers() {
+						if ex, ok := r.(*ssa.Extract); ok && ex.Index == 0 {
+							boolOK[ex] = true
 						}
 					}
+				}
+			}
+		}
+		for _, ret := range rets {
+			target := ssa.Instruction(ret)
+			gfn := ret.Parent()
+			accept := func(b *ssa.BasicBlock, i int, a *an.Atom) bool {
+				if a == nil {
 					return false
-				}}); x != nil {
+				}
+				if a.Op == "true" && boolOK[a.LV] {
+					return true
+				}
+				// not lockable: comma-ok of the assertion to AccountLocker is false
+				if a.Op == "false" {
+					if ex, ok := a.LV.(*ssa.Extract); ok && ex.Index == 1 {
+						if ta, ok := ex.Tuple.(*ssa.TypeAssert); ok && namedIs(ta.AssertedType, pkgWTypes, "AccountLocker") {
+							return true
+						}
+					}
+				}
+				return false
+			}
+			x, path := an.Cut(an.CutQuery{From: an.Entry(gfn), Target: func(i ssa.Instruction) bool { return i == target }, AcceptEdge: accept})
+			if x != nil {
 				bad = true
-				c.R.Fail(rule, Fn(f), c.Pos(ret), "the unlock step reports success for an account that is lockable and was neither found unlocked nor unlocked by a known passphrase", "success only if not lockable, or IsUnlocked() true, or UnlockAccount() true", an.PathString(c.Pos, path))
+				c.R.Fail(rule, Fn(gfn), c.Pos(ret), "the unlock step reports success for an account that is lockable and was neither found unlocked nor unlocked by a known passphrase", "success only if not lockable, or IsUnlocked() true, or UnlockAccount() true", an.PathString(c.Pos, path))
 			}
 		}
 		c.R.Floor(rule, "success returns of the unlock helper", len(rets), 2)
@@ -245,6 +291,47 @@ func (c *Ctx) PreCheckRules(prop string) {
 		}
 		c.batchPreCheck(rule, s, E, run, succ)
 	}
+}
+
+// succeededOrigins follows the Succeeded results of helper f to the returns where the constant originates: a constant
+// Succeeded return of f itself, or (for `return g(...)`, the result of a package helper handed on unchanged) of g, recursively.
+// Returns with a result of any other origin are reported in unknown.
+func (c *Ctx) succeededOrigins(f *ssa.Function, succ int64, depth int) (origins []*ssa.Return, unknown []ssa.Instruction) {
+	k := -1
+	res := f.Signature.Results()
+	for i := 0; i < res.Len(); i++ {
+		if namedIs(res.At(i).Type(), pkgCore, "Result") {
+			k = i
+		}
+	}
+	if k < 0 {
+		return nil, nil
+	}
+	for _, ret := range succeededReturns(f, succ) {
+		v := an.Result(ret, k)
+		if an.IsConstInt(v, succ) {
+			origins = append(origins, ret)
+			continue
+		}
+		var call *ssa.Call
+		switch x := v.(type) {
+		case *ssa.Call:
+			call = x
+		case *ssa.Extract:
+			call, _ = x.Tuple.(*ssa.Call)
+		}
+		if call != nil && depth < 3 {
+			g := call.Call.StaticCallee()
+			if g != nil && g.Blocks != nil && !call.Call.IsInvoke() && prog.PkgPathOf(g) == prog.PkgPathOf(f) {
+				o2, u2 := c.succeededOrigins(g, succ, depth+1)
+				origins = append(origins, o2...)
+				unknown = append(unknown, u2...)
+				continue
+			}
+		}
+		unknown = append(unknown, ret)
+	}
+	return origins, unknown
 }
 
 // errNilAtomPhi is errNilAtom that also accepts a phi of the error values (err assigned on two branches).
